@@ -23,7 +23,7 @@ ASSUMPTIONS = ['rounding scaled by conditioning = C*(eps*m*max_j|w_kj| + D_k) pe
                'exact weights derived from the definition of the Lagrange basis in Fraction arithmetic']
 C_ROW = 256.0
 C_POLY = 64.0
-KINDS = ['uniform', 'random', 'clustered', 'permuted', 'onesided', 'geometric', 'integer', 'offset', 'pyint_big', 'nearly_uniform']
+KINDS = ['uniform', 'random', 'clustered', 'permuted', 'onesided', 'geometric', 'integer', 'offset', 'pyint_big', 'nearly_uniform', 'symmetric_any_order']
 
 
 def setup(ctx, mon):
@@ -66,6 +66,20 @@ def make_nodes(rng, kind, m):
             keep = int(rng.integers(0, m))
             move[np.arange(m) != keep] = 0.0
         x = x + move
+    elif kind == 'symmetric_any_order':
+        # nodes placed exactly symmetrically about a centre (which cases() then uses as x0), listed in any order: by distance
+        # from the centre, shuffled, descending - the weights belong to the nodes, not to their positions in the list
+        c = float(np.round(rng.uniform(-2, 2), 2)) if rng.random() < 0.7 else 0.0
+        d = np.cumsum(rng.choice([0.25, 0.5, 1.0, 0.125], size=m // 2)) * float(rng.choice([1.0, 0.5, 2.0]))
+        pts = [c + v for v in d] + [c - v for v in d] + ([c] if m % 2 else [])
+        x = np.array(pts)
+        order = int(rng.integers(0, 3))
+        if order == 0:
+            x = x[np.argsort(np.abs(x - c), kind='stable')]
+        elif order == 1:
+            x = rng.permutation(x)
+        else:
+            x = np.sort(x)[::-1].copy()
     else:  # offset: well separated nodes far from the origin
         x = 1000.0 + np.sort(rng.uniform(-1, 1, m))
     x = np.asarray(x, dtype=float)
@@ -104,6 +118,9 @@ def cases(rng, tier, shard, nshards):
         else:
             x0 = float(x[int(rng.integers(0, m))])
         nder = int(rng.integers(0, m))
+        if kind == 'symmetric_any_order':
+            x0 = float(0.5 * (lo + hi))
+            place = 'centre_of_symmetry'
         if kind == 'nearly_uniform':
             centre = float(np.sort(x)[(m - 1) // 2])
             u = rng.random()
